@@ -974,6 +974,14 @@ func (a *activation) instrs(b *ssa.BasicBlock, idx int, fr *frame, h *Heap, p pa
 			if x.binop(a, b, i, in, fr, h, p) {
 				return
 			}
+		case *ssa.Lookup:
+			if mv := x.val(fr, in.X); mv.k == 'G' && strings.HasPrefix(mv.tag, "ctab:") {
+				if x.lookupConstTable(a, b, i, in, fr, h, p) {
+					return
+				}
+			} else {
+				x.lookup(in, fr, h)
+			}
 		default:
 			if !x.simple(in, fr, h) {
 				return // the instruction panics on every abstract state
@@ -1446,6 +1454,9 @@ func (x *Exec) load(addr AV, t types.Type, h *Heap, in ssa.Instruction) AV {
 		if strings.HasPrefix(addr.what, "global ") {
 			if t, ok := x.cliGlobals[strings.TrimPrefix(addr.what, "global ")]; ok {
 				return AV{k: 'P', tri: 2, what: "file", tag: t}
+			}
+			if v, ok := x.loadGlobal(strings.TrimPrefix(addr.what, "global "), h); ok {
+				return v
 			}
 		}
 		if addr.what == "argelem" {
